@@ -71,6 +71,10 @@ def lock_case(withlog, prefix):
     return [5, int(withlog), list(prefix) + fair(2, 14)]
 
 
+def read_case(prefix):
+    return [7, list(prefix) + fair(2, 3)]
+
+
 def stress_case(seed, rounds):
     return [9, int(seed), int(rounds)]
 
@@ -137,6 +141,9 @@ def generate(rng, tier):
     for sch in interleavings([5, 4]):
         yield dict(case=lock_case(0, sch), kind="lock-order")
         yield dict(case=lock_case(1, sch), kind="lock-order-log", compare=False)
+    # ---- 7. a signal read against a write that holds the value lock
+    for sch in interleavings([2, 1]):
+        yield dict(case=read_case(sch), kind="read-vs-write")
     # ---- 9. seeded random stress with a watchdog (free-running threads, jitter at the yield points)
     for _ in range(240 if thorough else 12):
         yield dict(case=stress_case(rng.randint(1, 10 ** 9), 150 if thorough else 40), kind="stress", compare=False)
@@ -165,6 +172,8 @@ def valid_case(item):
                 c[2][-2 * FAIR_ROUNDS:] == fair(2) and len(set(c[1])) == len(c[1]) and 1 not in c[1]
         if op == 5:
             return len(c) == 3 and c[1] in (0, 1) and all(t in (0, 1) for t in c[2]) and c[2][-28:] == fair(2, 14)
+        if op == 7:
+            return len(c) == 2 and all(t in (0, 1) for t in c[1]) and c[1][-6:] == fair(2, 3)
         if op == 9:
             return len(c) == 3 and c[1] >= 1 and 1 <= c[2] <= 1000
     except Exception:
@@ -262,8 +271,20 @@ def oracle(item, impl):
         if not log or log[-1] != [5, 42]:
             return "the effect did not run after its sources changed (last saw %r)" % (log[-1:],)
         return None
+    if op == 7:
+        (rst, v), wst, fin = impl
+        if rst == 3:
+            return "a signal read panicked because a write on another thread held the value lock"
+        if rst != 1 or wst != 1:
+            return "reader or writer did not finish within the bounded extra steps"
+        if fin != 2 or v not in (1, 2):
+            return "read %d / final %d is not a value of some sequential order" % (v, fin)
+        return None
     if op == 9:
-        okr, lost, stale, hangs = impl
+        okr, lost, stale, hangs, contended = impl
+        if contended and not (hangs or lost or stale):
+            return "stress: %d round(s) in which a signal read panicked because a write on another thread held the value lock" % contended
+        okr += contended
         if hangs:
             return "stress: %d round(s) left threads blocked forever (watchdog)" % hangs
         if lost:
@@ -280,7 +301,7 @@ def classify(item, impl, model):
     """open known findings; the class must also be exhibited by the model on this very schedule
     (KnownClass of the Coq statements), otherwise the failure is reported as a violation"""
     c = item["case"]
-    if isinstance(impl, str) or isinstance(model, str):
+    if isinstance(impl, str) or (isinstance(model, str) and c[0] != 9):
         return None
     msg = oracle(item, impl) or ""
     if c[0] == 4 and "mid-notification read" in msg and oracle(item, model) and "mid-notification read" in oracle(item, model):
@@ -289,6 +310,11 @@ def classify(item, impl, model):
         return "F-C19-d"
     if c[0] == 3 and "memo read panicked" in msg and "memo read panicked" in (oracle(item, model) or ""):
         return "F-C19-e"
+    if c[0] == 7 and "signal read panicked" in msg and "signal read panicked" in (oracle(item, model) or ""):
+        return "F-C19-f"
+    if c[0] == 9 and "signal read panicked" in msg:
+        # free-running stress has no model; the harness attributes the round by the panic message of the read
+        return "F-C19-f"
     return None
 
 
@@ -298,14 +324,15 @@ def nontrivial(item, model):
     if c[0] == 9:
         return True
     sched = c[-1]
-    n = {1: lambda: len(c[1]) + 1, 2: lambda: len(c[2]) + 1, 3: lambda: len(c[1]), 4: lambda: 2, 5: lambda: 2}[c[0]]()
-    tail = n * (14 if c[0] == 5 else FAIR_ROUNDS)
+    n = {1: lambda: len(c[1]) + 1, 2: lambda: len(c[2]) + 1, 3: lambda: len(c[1]), 4: lambda: 2, 5: lambda: 2,
+         7: lambda: 2}[c[0]]()
+    tail = n * (14 if c[0] == 5 else 3 if c[0] == 7 else FAIR_ROUNDS)
     pre = sched[:-tail] if tail else sched
     switches = sum(1 for a, b in zip(pre, pre[1:]) if a != b)
     return switches >= 2
 
 
-NAMES = {9: "random stress with watchdog", 1: "await path", 2: "effect channel", 3: "signal writes / memo pulls", 4: "mid-notification read",
+NAMES = {9: "random stress with watchdog", 7: "signal read vs write holding the lock", 1: "await path", 2: "effect channel", 3: "signal writes / memo pulls", 4: "mid-notification read",
          5: "lock order notify_subs vs effect re-run"}
 
 
